@@ -4290,6 +4290,10 @@ fn check_entity_ref(
     if entity.parent_id().is_none() {
         return Ok(());
     }
+    // WFC: Parsed Entity
+    if entity.notation_name().is_some() {
+        return Err(error::Error::InvalidData(entity.name().to_string()));
+    }
     match seen.get(entity.name()) {
         Some(true) => return Ok(()),
         // WFC: No Recursion
